@@ -2,10 +2,11 @@
 from .. import vlib
 from ..vlib import cN, clist, copt
 from ..harness import dumps as D
+from ..translate import tr_filters
 
-TRANSLATORS = []
+TRANSLATORS = [tr_filters.translate]
 MODEL_TARGETS = ['theories/FiltersCases.vo', 'theories/CliCases.vo']
-PROOF_TARGETS = ['props/C12.vo']
+PROOF_TARGETS = ['props/C12.vo', 'theories/FiltersRefine.vo']
 PROP_FILE = 'props/C12.v'
 ASSUMPTIONS = [
     'the stream handed to the filters is what KdBufParser.parse yields (events, then log records); the container itself '
